@@ -1126,3 +1126,7 @@ pub async fn verif_negotiate_connection(
     .await
     .map(|connection| connection.peer())
 }
+
+/// The connection task for the connection harness (verification only).
+#[cfg(litep2p_verif)]
+pub(crate) use connection::TcpConnection as VerifTcpConnection;
